@@ -482,8 +482,9 @@ static int encrypt_file(const char *infilename, const char *outfilename)
 
     /* Write the header and SIV block to the output file */
     exit_val = 1;
-    if (!safe_file_write(&output, &header, sizeof(header)) ||
-            !safe_file_write(&output, &siv, sizeof(siv))) {
+    if (safe_file_write(&output, &header, sizeof(header)) !=
+                (int)sizeof(header) ||
+            safe_file_write(&output, &siv, sizeof(siv)) != (int)sizeof(siv)) {
         exit_val = 0;
     }
 
@@ -505,7 +506,7 @@ static int encrypt_file(const char *infilename, const char *outfilename)
                 break;
             }
             ascon80pq_aead_encrypt_block(&state, data, data, len);
-            if (!safe_file_write(&output, data, len))
+            if (safe_file_write(&output, data, len) != len)
                 exit_val = 0;
             if (len < (int)sizeof(data))
                 break; /* Short last block - we're done */
@@ -514,7 +515,8 @@ static int encrypt_file(const char *infilename, const char *outfilename)
     ascon80pq_aead_encrypt_finalize(&state, data);
     ascon80pq_aead_free(&state);
     if (exit_val) {
-        if (!safe_file_write(&output, data, ASCON80PQ_TAG_SIZE))
+        if (safe_file_write(&output, data, ASCON80PQ_TAG_SIZE) !=
+                ASCON80PQ_TAG_SIZE)
             exit_val = 0;
     }
 
@@ -620,7 +622,7 @@ static int decrypt_file(const char *infilename, const char *outfilename)
                 break;
             }
             ascon80pq_aead_decrypt_block(&state, data, data, len);
-            if (!safe_file_write(&output, data, len))
+            if (safe_file_write(&output, data, len) != len)
                 exit_val = 0;
             memmove(data, data + len, 16);
             if (len < (int)(sizeof(data) - 16))
